@@ -88,8 +88,35 @@ func (c *ClusterInfo) snapshotQueueResourceUsage() (*queue_info.ClusterUsage, er
 // UpdateQueueHierarchy iterates over a map containing multiple levels of queue hierarchies, and updates queues with
 // child queues where relevant
 func UpdateQueueHierarchy(queues map[common_info.QueueID]*queue_info.QueueInfo) {
+	cleanQueueCycles(queues)
 	updateQueueChildren(queues)
 	cleanQueueOrphans(queues)
+}
+
+// cleanQueueCycles removes queues whose chain of parents loops back on itself (a queue that is its own
+// parent or ancestor). Nothing validates the queue graph on admission, and every walk up the hierarchy
+// (fair share, capacity checks, min-runtime resolution) assumes it ends at a top-level queue. Queues below a
+// removed cycle lose their parent and are removed as orphans.
+func cleanQueueCycles(queues map[common_info.QueueID]*queue_info.QueueInfo) {
+	var cyclicQueues []common_info.QueueID
+	for queueId := range queues {
+		current := queueId
+		for steps := 0; ; steps++ {
+			queue, found := queues[current]
+			if !found || queue.ParentQueue == "" {
+				break
+			}
+			if steps > len(queues) {
+				cyclicQueues = append(cyclicQueues, queueId)
+				break
+			}
+			current = queue.ParentQueue
+		}
+	}
+	for _, queueId := range cyclicQueues {
+		log.InfraLogger.V(2).Warnf("Queue %s is part of, or below, a cycle of parent queues, ignoring it", queueId)
+		delete(queues, queueId)
+	}
 }
 
 func updateQueueChildren(queues map[common_info.QueueID]*queue_info.QueueInfo) {
